@@ -858,12 +858,44 @@ func C20(tier string) int {
 	if _, err := dec(nil); err == nil {
 		c.fail("C20|txdecoder|accepts-empty", "the tx decoder accepted empty bytes", nil)
 	}
+	// ... on the canonical bytes of each catalogue transaction (decodes to a value that encodes to the
+	// same bytes) and on those bytes followed by more (a length-prefixed encoding ends where its prefix
+	// says: accepting a suffix gives one signed transaction several byte strings, i.e. several hashes)
+	var ndec int64
+	for ti, tx := range c20txs() {
+		raw, err := chain.MakeCodec().MarshalBinaryLengthPrefixed(tx)
+		if err != nil {
+			continue
+		}
+		ndec++
+		got, derr := dec(raw)
+		if derr != nil {
+			c.fail("C20|txdecoder|refuses-canonical", fmt.Sprintf("catalogue transaction %d: the tx decoder refuses its canonical encoding: %v", ti, derr), map[string]interface{}{"tx": ti})
+			continue
+		}
+		if back, err := chain.MakeCodec().MarshalBinaryLengthPrefixed(got); err != nil || !bytes.Equal(back, raw) {
+			c.fail("C20|txdecoder|round-trip", fmt.Sprintf("catalogue transaction %d: decoded by the tx decoder it encodes to %X, original %X (%v)", ti, back, raw, err), map[string]interface{}{"tx": ti})
+		}
+		for _, suffix := range [][]byte{{0x00}, {0x01}, {0xFF}, {0x00, 0x00}, raw, raw[:1]} {
+			ndec++
+			ext := append(append([]byte{}, raw...), suffix...)
+			var t2 sdk.Tx
+			var e2 sdk.Error
+			if _, pn := guarded(func() error { t2, e2 = dec(ext); return nil }); pn != "" {
+				c.fail("C20|txdecoder|panics", fmt.Sprintf("catalogue transaction %d followed by %X: the tx decoder panicked: %.200s", ti, suffix, pn), map[string]interface{}{"tx": ti})
+			} else if e2 == nil && t2 != nil {
+				c.fail("C20|txdecoder|trailing-bytes-accepted", fmt.Sprintf("catalogue transaction %d: its %d canonical bytes followed by %d more bytes (%.16X...) are accepted by the tx decoder as the same transaction (a second byte string, hence a second hash, for one signed transaction)", ti, len(raw), len(suffix), suffix), map[string]interface{}{"tx": ti, "suffix": fmt.Sprintf("%X", suffix)})
+				break
+			}
+		}
+	}
+	c.count("tx decoder calls", ndec)
 	_ = abci.RequestCheckTx{}
 	run.Set("evaluations", c.eval)
 	run.Set("distinct_nontrivial", int64(len(items)))
 	run.Set("catalogue_items", len(items))
 	run.Set("by_part", c.kinds)
-	run.Set("rule", "value catalogue (every message type x boundary field values, StdTx with every key kind / without key, accounts, module accounts, supply, validators in every status, signing infos, parameter sets, coins, Int/Dec/Uint boundary values, addresses, public keys): amino bare / length-prefixed / JSON round trips; sign bytes: every catalogue transaction re-encoded through binary and three JSON renderings, all pairs for injectivity; hostile bytes: every truncation and every single-byte substitution (256 values for encodings <= 64 bytes, else 8 bit flips + 00 + FF + +-1) of every catalogue encoding to its decoder, truncations and bit flips of transactions to CheckTx/DeliverTx of a live application; JSON/hex decoders on a garbage catalogue; power-index / unstaking-queue / address keys: all pairs for order, all for parse-back; distinct_nontrivial = catalogue items")
+	run.Set("rule", "value catalogue (every message type x boundary field values, StdTx with every key kind / without key, accounts, module accounts, supply, validators in every status, signing infos, parameter sets, coins, Int/Dec/Uint boundary values, addresses, public keys): amino bare / length-prefixed / JSON round trips; sign bytes: every catalogue transaction re-encoded through binary and three JSON renderings, all pairs for injectivity; hostile bytes: every truncation and every single-byte substitution (256 values for encodings <= 64 bytes, else 8 bit flips + 00 + FF + +-1) of every catalogue encoding to its decoder, truncations and bit flips of transactions to CheckTx/DeliverTx of a live application; the application's tx decoder on every catalogue transaction (round trip) and on its bytes followed by six suffixes (refused); JSON/hex decoders on a garbage catalogue; power-index / unstaking-queue / address keys: all pairs for order, all for parse-back; distinct_nontrivial = catalogue items")
 	run.Sample(map[string]interface{}{"item": "StdTx/3/send", "mutation": "byte 17 -> 0xFF", "oracle": "decoder returns an error or a value whose encoding is a fixed point; no panic"})
 	run.Assume("exhaustive within the catalogue and single-edit mutations; multi-byte corruption is not covered")
 	return run.Finish()
